@@ -138,49 +138,88 @@ Proof.
 Qed.
 
 (** * Histories *)
-Record Inv (pmax : Z) (s : lstate) : Prop := {
+Record Inv (s : lstate) : Prop := {
   inv_sorted : StronglySorted newer (dir s);
   inv_sizes : Forall (fun f => 0 <= f_size f) (dir s);
-  inv_stamps : Forall (fun f => f_stamp f <= Z.max pmax (last_rot s)) (dir s);
-  inv_open : is_open s = true -> dir s <> []
+  inv_open : is_open s = true -> exists f tl, dir s = f :: tl /\ f_stamp f = last_rot s;
+  inv_closed : is_open s = false -> last_rot s = 0
 }.
 
-Definition good_op (pmax : Z) (o : rop) : Prop :=
+(** What a history must satisfy: message sizes are not negative, and when the
+    file is (re-)opened the clock is positive and not behind the name of the
+    newest file in the directory. *)
+Definition op_ok (s : lstate) (o : rop) : Prop :=
   match o with
-  | RLog n1 n2 _ len => pmax < n1 /\ pmax < n2 /\ 0 <= len
+  | RLog n1 _ _ len =>
+      0 <= len /\ (is_open s = false -> 0 < n1 /\ Forall (fun f => f_stamp f <= n1) (dir s))
   | _ => True
+  end.
+
+Fixpoint run_ok (h : Z) (s : lstate) (ops : list rop) : Prop :=
+  match ops with
+  | [] => True
+  | o :: tl => op_ok s o /\ run_ok h (rstep h s o) tl
   end.
 
 Lemma readback_of_cons f tl : readback_of (f :: tl) = readback_of tl ++ f_msgs f.
 Proof. unfold readback_of. cbn [rev]. rewrite map_app, concat_app. cbn. rewrite app_nil_r. reflexivity. Qed.
 
-Lemma do_rotate_inv pmax now h s : 0 <= h -> pmax < now -> Inv pmax s -> Inv pmax (do_rotate now h s).
+Lemma sorted_head_bound f tl : StronglySorted newer (f :: tl) -> Forall (fun g => f_stamp g <= f_stamp f) (f :: tl).
 Proof.
-  intros Hh Hn [S Z1 St O]. unfold do_rotate.
-  set (st := if now <=? last_rot s then last_rot s + 1 else now).
-  assert (Z.max pmax (last_rot s) < st) as Hst by (subst st; destruct (now <=? last_rot s) eqn:E; lia).
-  constructor; cbn [dir is_open last_rot].
-  - constructor; [assumption|]. eapply Forall_impl; [|exact St]. unfold newer; cbn; intros; lia.
-  - constructor; [cbn; lia | assumption].
-  - constructor; [cbn; lia|]. eapply Forall_impl; [|exact St]. cbn; intros; lia.
-  - discriminate.
+  intros S. inversion S as [|? ? _ H]; subst. constructor; [lia|].
+  eapply Forall_impl; [|exact H]. unfold newer. intros; lia.
 Qed.
 
-Lemma do_rotate_readback now h s : readback (do_rotate now h s) = readback s.
-Proof. unfold do_rotate, readback. cbn [dir]. rewrite readback_of_cons. cbn. apply app_nil_r. Qed.
-
-Lemma do_rotate_open now h s : is_open (do_rotate now h s) = true.
-Proof. reflexivity. Qed.
-
-Lemma append_msg_inv pmax id len s : 0 <= len -> Inv pmax s -> Inv pmax (append_msg id len s).
+Lemma do_rotate_spec now h s :
+  0 <= h -> Inv s ->
+  (is_open s = false -> 0 < now /\ Forall (fun f => f_stamp f <= now) (dir s)) ->
+  Inv (do_rotate now h s) /\ readback (do_rotate now h s) = readback s /\ is_open (do_rotate now h s) = true.
 Proof.
-  intros Hl [S Z1 St O]. unfold append_msg. destruct (dir s) as [|f tl] eqn:D.
+  intros Hh [Srt Z1 O C] Hc. unfold do_rotate.
+  set (st := if now <=? last_rot s then last_rot s + 1 else now).
+  assert (Forall (fun f => f_stamp f <= st) (dir s) /\ (is_open s = true -> Forall (fun f => f_stamp f < st) (dir s))) as [B Bo].
+  { destruct (is_open s) eqn:E.
+    - destruct (O eq_refl) as (f & tl & D & Hf).
+      assert (last_rot s < st) as L by (subst st; destruct (now <=? last_rot s) eqn:E2; lia).
+      rewrite D in *. pose proof (sorted_head_bound f tl Srt) as HB.
+      split; [|intros _]; (eapply Forall_impl; [|exact HB]); cbn; intros; lia.
+    - destruct (Hc eq_refl) as [Hn HF]. pose proof (C eq_refl) as L0.
+      assert (st = now) as -> by (subst st; rewrite L0; destruct (now <=? 0) eqn:E2; lia).
+      split; [exact HF | discriminate]. }
+  destruct (dir s) as [|f tl] eqn:D.
+  - repeat split; cbn [dir is_open last_rot].
+    + constructor; constructor.
+    + constructor; [cbn; lia | constructor].
+    + intros _. eexists _, _. split; reflexivity.
+    + discriminate.
+    + unfold readback. cbn [dir]. rewrite D. reflexivity.
+  - inversion Srt as [|? ? Stl Hf]; subst. inversion Z1 as [|? ? Zf Ztl]; subst.
+    inversion B as [|? ? Bf Btl]; subst.
+    destruct (f_stamp f =? st) eqn:E.
+    + apply Z.eqb_eq in E. repeat split; cbn [dir is_open last_rot].
+      * constructor; [assumption|]. eapply Forall_impl; [|exact Hf]. unfold newer; cbn; intros; lia.
+      * constructor; [cbn; lia | assumption].
+      * intros _. eexists _, _. split; reflexivity.
+      * discriminate.
+      * unfold readback. cbn [dir]. rewrite D, !readback_of_cons. reflexivity.
+    + apply Z.eqb_neq in E. repeat split; cbn [dir is_open last_rot].
+      * constructor; [constructor; assumption|]. constructor; [unfold newer; cbn; lia|].
+        eapply Forall_impl; [|exact Hf]. unfold newer; cbn; intros; lia.
+      * constructor; [cbn; lia | constructor; assumption].
+      * intros _. eexists _, _. split; reflexivity.
+      * discriminate.
+      * unfold readback. cbn [dir]. rewrite D, readback_of_cons. cbn. apply app_nil_r.
+Qed.
+
+Lemma append_msg_inv id len s : 0 <= len -> Inv s -> Inv (append_msg id len s).
+Proof.
+  intros Hl [Srt Z1 O C]. unfold append_msg. destruct (dir s) as [|f tl] eqn:D.
   - constructor; rewrite ?D; auto.
   - constructor; cbn [dir is_open last_rot].
-    + inversion S; subst. constructor; [assumption|]. assumption.
+    + inversion Srt; subst. constructor; assumption.
     + inversion Z1; subst. constructor; [cbn; lia | assumption].
-    + inversion St; subst. constructor; [cbn; assumption | assumption].
-    + discriminate.
+    + intros E. destruct (O E) as (f' & tl' & D' & Hf). inversion D'; subst. eexists _, _. split; [reflexivity | exact Hf].
+    + exact C.
 Qed.
 
 Lemma append_msg_readback id len s : dir s <> [] -> readback (append_msg id len s) = readback s ++ [id].
@@ -189,28 +228,29 @@ Proof.
   unfold readback. cbn [dir]. rewrite D, !readback_of_cons. cbn [f_msgs]. apply app_assoc.
 Qed.
 
-Lemma do_flush_inv pmax s : Inv pmax s -> Inv pmax (do_flush s).
+Lemma do_flush_inv s : Inv s -> Inv (do_flush s).
 Proof. intros [A B C D]. constructor; assumption. Qed.
 
 Lemma do_flush_readback s : readback (do_flush s) = readback s.
 Proof. reflexivity. Qed.
 
-Lemma do_log_spec pmax n1 n2 h id len s :
-  0 <= h -> pmax < n1 -> pmax < n2 -> 0 <= len -> Inv pmax s ->
-  Inv pmax (do_log n1 n2 h id len s) /\ readback (do_log n1 n2 h id len s) = readback s ++ [id].
+Lemma do_log_spec n1 n2 h id len s :
+  0 <= h -> op_ok s (RLog n1 n2 id len) -> Inv s ->
+  Inv (do_log n1 n2 h id len s) /\ readback (do_log n1 n2 h id len s) = readback s ++ [id].
 Proof.
-  intros Hh H1 H2 Hl I. unfold do_log.
+  intros Hh [Hl Hc] I. unfold do_log.
   set (s1 := if is_open s then s else do_rotate n1 h s).
-  assert (Inv pmax s1 /\ readback s1 = readback s /\ is_open s1 = true) as (I1 & R1 & O1).
-  { subst s1. destruct (is_open s) eqn:O; [auto|].
-    split; [apply do_rotate_inv; assumption|]. split; [apply do_rotate_readback | reflexivity]. }
+  assert (Inv s1 /\ readback s1 = readback s /\ is_open s1 = true) as (I1 & R1 & O1).
+  { subst s1. destruct (is_open s) eqn:O; [auto|]. apply do_rotate_spec; auto. }
   set (s2 := if maxsz s1 <=? nbytes s1 + len then do_rotate n2 h s1 else s1).
-  assert (Inv pmax s2 /\ readback s2 = readback s /\ is_open s2 = true) as (I2 & R2 & O2).
+  assert (Inv s2 /\ readback s2 = readback s /\ is_open s2 = true) as (I2 & R2 & O2).
   { subst s2. destruct (maxsz s1 <=? nbytes s1 + len); [|auto].
-    split; [apply do_rotate_inv; assumption|]. split; [rewrite do_rotate_readback; assumption | reflexivity]. }
-  assert (Inv pmax (append_msg id len s2) /\ readback (append_msg id len s2) = readback s ++ [id]) as [I3 R3].
+    destruct (do_rotate_spec n2 h s1 Hh I1) as (A & B & C); [intros E; congruence|].
+    rewrite B. auto. }
+  assert (Inv (append_msg id len s2) /\ readback (append_msg id len s2) = readback s ++ [id]) as [I3 R3].
   { split; [apply append_msg_inv; assumption|].
-    rewrite append_msg_readback, R2; [reflexivity|]. apply (inv_open _ _ I2); assumption. }
+    rewrite append_msg_readback, R2; [reflexivity|].
+    destruct (inv_open _ I2 O2) as (f & tl & D & _). rewrite D. discriminate. }
   destruct (syncw (append_msg id len s2)); [|auto].
   split; [apply do_flush_inv; assumption | rewrite do_flush_readback; assumption].
 Qed.
@@ -233,10 +273,10 @@ Proof.
   induction k; intros l F; [constructor|]. destruct F; cbn; constructor; auto.
 Qed.
 
-Lemma do_gc_spec pmax b s : Inv pmax s ->
-  Inv pmax (do_gc b s) /\ exists dropped, dropped ++ readback (do_gc b s) = readback s.
+Lemma do_gc_spec b s : Inv s ->
+  Inv (do_gc b s) /\ exists dropped, dropped ++ readback (do_gc b s) = readback s.
 Proof.
-  intros [Srt Z1 St O]. unfold do_gc, gc. rewrite sort_desc_id by assumption.
+  intros [Srt Z1 O C]. unfold do_gc, gc. rewrite sort_desc_id by assumption.
   unfold gc_select. destruct (dir s) as [|n tl] eqn:D.
   - split; [constructor; cbn; rewrite ?D; auto|]. exists []. unfold readback, readback_of; cbn. rewrite D. reflexivity.
   - inversion Z1 as [|? ? Zn Ztl]; subst.
@@ -246,27 +286,29 @@ Proof.
     + constructor; cbn [dir is_open last_rot].
       * apply firstn_sorted; assumption.
       * apply firstn_Forall; assumption.
-      * apply firstn_Forall; assumption.
-      * discriminate.
+      * intros E. destruct (O E) as (f & tl' & D' & Hf). inversion D'; subst.
+        eexists _, _. split; [reflexivity | exact Hf].
+      * exact C.
     + exists (concat (map f_msgs (rev (skipn (S k) (n :: tl))))).
       unfold readback, readback_of. cbn [dir]. rewrite D.
       rewrite <- concat_app, <- map_app, <- rev_app_distr, firstn_skipn. reflexivity.
 Qed.
 
-Lemma rstep_spec pmax h s o : 0 <= h -> good_op pmax o -> Inv pmax s ->
-  Inv pmax (rstep h s o) /\
+Lemma rstep_spec h s o : 0 <= h -> op_ok s o -> Inv s ->
+  Inv (rstep h s o) /\
   exists dropped, dropped ++ readback (rstep h s o) = readback s ++ logged [o] /\
                   (no_gc [o] = true -> dropped = []).
 Proof.
-  intros Hh G I. destruct o as [n1 n2 id len | m | b | sy | |]; cbn [rstep logged no_gc].
-  - destruct G as (G1 & G2 & G3).
-    destruct (do_log_spec pmax n1 n2 h id len s Hh G1 G2 G3 I) as [I' R].
+  intros Hh G I. destruct o as [n1 n2 id len | m | b | sy | | |]; cbn [rstep logged no_gc].
+  - destruct (do_log_spec n1 n2 h id len s Hh G I) as [I' R].
     split; [assumption|]. exists []. split; [exact R | reflexivity].
   - split; [destruct I; constructor; assumption|]. exists []. rewrite app_nil_r. split; reflexivity.
-  - destruct (do_gc_spec pmax b s I) as [I' [d R]]. split; [assumption|].
+  - destruct (do_gc_spec b s I) as [I' [d R]]. split; [assumption|].
     exists d. rewrite app_nil_r. split; [assumption | discriminate].
   - split; [destruct I; destruct sy; constructor; assumption|].
     exists []. rewrite app_nil_r. split; [destruct sy|]; reflexivity.
+  - split; [destruct I; constructor; cbn; auto; discriminate|].
+    exists []. rewrite app_nil_r. split; reflexivity.
   - split; [apply do_flush_inv; assumption|]. exists []. rewrite app_nil_r. split; reflexivity.
   - split; [assumption|]. exists []. rewrite app_nil_r. split; reflexivity.
 Qed.
@@ -275,18 +317,18 @@ Lemma logged_app a b : logged (a ++ b) = logged a ++ logged b.
 Proof. induction a as [|o a IH]; [reflexivity|]. destruct o; cbn; rewrite ?IH; reflexivity. Qed.
 
 (** Every message logged so far is read back exactly once and in order across
-    rotations, for every sequence of sizes, thresholds and clocks; GC runs drop
-    a prefix (the oldest files) and nothing else. *)
-Theorem rotation_gc_history pmax h : 0 <= h -> forall ops s,
-  Forall (good_op pmax) ops -> Inv pmax s ->
-  Inv pmax (rrun h s ops) /\
+    rotations, closes and re-opens, for every sequence of sizes, thresholds and
+    clocks; GC runs drop a prefix (the oldest files) and nothing else. *)
+Theorem rotation_gc_history h : 0 <= h -> forall ops s,
+  run_ok h s ops -> Inv s ->
+  Inv (rrun h s ops) /\
   exists dropped, dropped ++ readback (rrun h s ops) = readback s ++ logged ops /\
                   (no_gc ops = true -> dropped = []).
 Proof.
   intros Hh ops. induction ops as [|o ops IH]; intros s G I.
   - split; [assumption|]. exists []. rewrite app_nil_r. split; reflexivity.
-  - inversion G as [|? ? Go Gops]; subst.
-    destruct (rstep_spec pmax h s o Hh Go I) as (I1 & d1 & R1 & N1).
+  - destruct G as [Go Gops].
+    destruct (rstep_spec h s o Hh Go I) as (I1 & d1 & R1 & N1).
     destruct (IH (rstep h s o) Gops I1) as (I2 & d2 & R2 & N2).
     split; [exact I2|].
     exists (d1 ++ d2). split.
@@ -298,13 +340,9 @@ Proof.
       rewrite (N1 A), (N2 B). reflexivity.
 Qed.
 
-Lemma init_inv pmax planted m :
-  StronglySorted newer planted -> Forall (fun f => 0 <= f_size f) planted ->
-  Forall (fun f => f_stamp f <= pmax) planted -> Inv pmax (init_state planted m).
-Proof.
-  intros S Z1 St. constructor; cbn; auto; [|discriminate].
-  eapply Forall_impl; [|exact St]. cbn; intros; lia.
-Qed.
+Lemma init_inv planted m :
+  StronglySorted newer planted -> Forall (fun f => 0 <= f_size f) planted -> Inv (init_state planted m).
+Proof. intros S Z1. constructor; cbn; auto; discriminate. Qed.
 
 (** ** Buffering: Flush leaves nothing behind; sync mode writes through. *)
 Lemma on_disk_flushed s : ubytes s = 0 -> ucount s = 0%nat -> on_disk s = dir s.
@@ -322,13 +360,14 @@ Qed.
 
 Definition SyncInv (s : lstate) : Prop := syncw s = true -> ubytes s = 0 /\ ucount s = 0%nat.
 
-Lemma syncw_do_rotate now h s : syncw (do_rotate now h s) = syncw s. Proof. reflexivity. Qed.
+Lemma syncw_do_rotate now h s : syncw (do_rotate now h s) = syncw s.
+Proof. unfold do_rotate. destruct (dir s) as [|f tl]; [reflexivity|]. destruct (f_stamp f =? _); reflexivity. Qed.
 Lemma syncw_append id len s : syncw (append_msg id len s) = syncw s.
 Proof. unfold append_msg. destruct (dir s); reflexivity. Qed.
 
 Lemma rstep_sync h s o : SyncInv s -> SyncInv (rstep h s o).
 Proof.
-  intros I. destruct o as [n1 n2 id len | m | b | sy | |]; cbn [rstep].
+  intros I. destruct o as [n1 n2 id len | m | b | sy | | |]; cbn [rstep].
   - unfold do_log.
     match goal with |- SyncInv (if syncw ?x then _ else _) => destruct (syncw x) eqn:E end.
     + intros _. split; reflexivity.
@@ -336,6 +375,7 @@ Proof.
   - exact I.
   - exact I.
   - destruct sy; [intros _; split; reflexivity | intros C; discriminate C].
+  - intros _. split; reflexivity.
   - intros _. split; reflexivity.
   - exact I.
 Qed.
@@ -350,18 +390,18 @@ Proof.
 Qed.
 
 Theorem rotation_lossless h m ops :
-  0 <= h -> Forall (good_op 0) ops -> no_gc ops = true ->
+  0 <= h -> run_ok h (init_state [] m) ops -> no_gc ops = true ->
   readback (rrun h (init_state [] m) ops) = logged ops.
 Proof.
   intros Hh G NG.
-  destruct (rotation_gc_history 0 h Hh ops (init_state [] m) G) as (_ & d & R & N).
+  destruct (rotation_gc_history h Hh ops (init_state [] m) G) as (_ & d & R & N).
   - apply init_inv; constructor.
   - rewrite (N NG) in R. exact R.
 Qed.
 
 (** The property's wording: after a flush, what a reader of the files finds. *)
 Theorem rotation_lossless_after_flush h m ops :
-  0 <= h -> Forall (good_op 0) ops -> no_gc ops = true ->
+  0 <= h -> run_ok h (init_state [] m) ops -> no_gc ops = true ->
   readback_disk (do_flush (rrun h (init_state [] m) ops)) = logged ops.
 Proof.
   intros Hh G NG. destruct (flush_leaves_nothing_buffered (rrun h (init_state [] m) ops)) as [_ ->].
@@ -369,14 +409,23 @@ Proof.
 Qed.
 
 (** GC never removes the file being written. *)
-Theorem gc_keeps_current pmax b s : Inv pmax s -> is_open s = true ->
+Theorem gc_keeps_current b s : Inv s -> is_open s = true ->
   exists cur rest rest', dir s = cur :: rest /\ dir (do_gc b s) = cur :: rest'.
 Proof.
-  intros I O. pose proof (inv_open _ _ I O) as NE.
-  destruct (dir s) as [|cur rest] eqn:D; [congruence|].
+  intros I O. destruct (inv_open _ I O) as (cur & rest & D & _).
   exists cur, rest. unfold do_gc, gc. cbn [dir]. rewrite D.
-  rewrite sort_desc_id by (rewrite <- D; apply (inv_sorted _ _ I)).
+  rewrite sort_desc_id by (rewrite <- D; apply (inv_sorted _ I)).
   eexists; split; reflexivity.
+Qed.
+
+(** A file that is closed and re-opened under the name it already has (same
+    second) keeps its content: the header and the new messages come after. *)
+Theorem reopen_same_name_appends now h f tl s :
+  dir s = f :: tl -> is_open s = false -> last_rot s = 0 -> 0 < now -> f_stamp f = now ->
+  dir (do_rotate now h s) = mkFile now (f_size f + h) (f_msgs f) :: tl.
+Proof.
+  intros D O L Hn Hf. unfold do_rotate. rewrite D, L.
+  replace (now <=? 0) with false by lia. rewrite Hf, Z.eqb_refl. reflexivity.
 Qed.
 
 (** * Several loggers in one directory *)
